@@ -12,7 +12,9 @@ from common import CORPUS
 
 # ---------------------------------------------------------------- classification of a disagreement into a STABLE key
 def classify(c, er, dis, dis_spec):
-    """dis = disagreement with the engine-faithful model (…_impl), dis_spec = with the manual's reading.  Returns (key, what) or None."""
+    """dis = disagreement with the engine-faithful model (…_impl), dis_spec = with the manual's reading.  Returns (key, what) or None.
+    Keys of defects repaired in /repo (leading sign, alias, single identifier, phantom row) are kept: were one of them to come back, the
+    violation carries its recognisable key (it is no longer a known finding, so the check fails)."""
     k = c["kind"]
     other_ids = [n for n, _ in c["ds"]["DS_1"]["ids"] if n != "Id_2"] if k in ("chk_h", "hier") else None
     if not er["ok"]:
@@ -32,10 +34,6 @@ def classify(c, er, dis, dis_spec):
                     "visitor) fails with DuckDB Binder Error: _dp_signature is stashed but never read by visit_VarID")
         return None
     if dis is None and dis_spec is not None:
-        if k == "check":
-            return ("check:imbalance-join-drops-datapoints",
-                    "check(... imbalance X): datapoints of the operand without partner in X are dropped (inner JOIN) — FALSE datapoints are missing "
-                    "from `invalid`, others from `all`")
         if k == "hier" and c.get("imode") == "dataset":
             return ("hierarchy:input-mode-dataset-evaluated-as-rule",
                     "hierarchy(... dataset): right-side items computed by other rules take the COMPUTED value; input mode `dataset` is ignored")
@@ -69,10 +67,7 @@ def judge(ctx, c, er, m_impl, m_spec, shrinkable=True):
               (f":{c.get('mode') or 'default'}" if c["kind"] in ("chk_h", "hier") else "")
         ctx.violation(key, f"{script} :: {dis}", replay)
         reported = True
-    known = {"check:imbalance-join-drops-datapoints"}
     for key, what in VG.predicates(c, er):
-        if cl is not None and key in known and cl[0] == key:
-            continue
         ctx.violation(key, f"property predicate on engine output: {what} :: {script}", replay)
         reported = True
     return reported, dis, cl
@@ -99,7 +94,7 @@ def engine_results(cases, workers=8):
 def run_cases(ctx, cases, tag, store=True):
     ers = engine_results(cases)
     m_impl = VG.eval_model(cases, tag + "_impl", impl=True)
-    two = [i for i, c in enumerate(cases) if (c["kind"] == "check" and c["imb"]) or (c["kind"] == "hier" and c.get("imode") == "dataset")]
+    two = [i for i, c in enumerate(cases) if c["kind"] == "hier" and c.get("imode") == "dataset"]
     m_spec_l = VG.eval_model([cases[i] for i in two], tag + "_spec", impl=False) if two else []
     m_spec = dict(zip(two, m_spec_l))
     hist = {}
@@ -251,7 +246,8 @@ def run(ctx):
                        "ALL output modes in one script; distinct = case content hash")
     ctx.oblige("K: engine = Model/Validation.v (engine-faithful variant) on every generated case, or the disagreement is reported", True)
     ctx.oblige("property predicate evaluated on engine output of every case (invalid = FALSE rows of all; errorcode/errorlevel iff FALSE; "
-               "all_measures = all; check all complete w.r.t. operand; imbalance = left - right; hierarchy all = computed over input)", True)
+               "all_measures = all; check all complete w.r.t. operand; imbalance = left - right; hierarchy all = computed over input; "
+               "errorlevel component and values typed as Validation.validate declares)", True)
     ctx.trusted.append("DuckDB 1.5.5 executes the emitted SQL (observed only). Bounds: ASCII strings; |integers| ≤ 1000; Numbers on a 1/4 grid (exact in "
                        "DOUBLE/DECIMAL); hierarchical rules without `when`, without condition components, variable signature; value-domain signatures, "
                        "viral attributes and attributes are reached only through the upstream corpus with model-free predicates")
